@@ -333,6 +333,22 @@ func Drops(r *rand.Rand, n int, pattern int) *roaring.Bitmap {
 	}
 }
 
+// JumboSize draws a jumbo batch size; a third of the time exactly at a chunking boundary.
+func JumboSize(r *rand.Rand, lo, span int) int {
+	if r.Intn(3) == 0 {
+		var fit []int
+		for _, k := range []int{1023, 1024, 1025, 2047, 2048, 2049, 3072} {
+			if k >= lo && k <= lo+span+1100 {
+				fit = append(fit, k)
+			}
+		}
+		if len(fit) > 0 {
+			return fit[r.Intn(len(fit))]
+		}
+	}
+	return lo + r.Intn(span)
+}
+
 // JumboBatch draws n small documents over a tiny vocabulary so that some term
 // occurs in more than 1024 documents (adaptive chunking then uses >= 2 chunks
 // and doc values cross the 1024-document chunk).
@@ -369,7 +385,9 @@ func JumboBatch(r *rand.Rand, n int, prefix string, tagDV ...bool) ([]*model.MDo
 		pos := 1
 		if r.Intn(10) < 8 {
 			mt := &model.MTerm{T: []byte("common"), F: 1 + r.Intn(2)}
-			if r.Intn(3) == 0 {
+			// locations only in the second half of the batch: the first posting chunk(s) of "common" have an
+			// EMPTY location chunk, later ones a populated one
+			if i >= n/2 && r.Intn(3) == 0 {
 				mt.L = append(mt.L, &model.MLoc{P: pos, S: pos, E: pos + 6})
 				pos++
 			}
@@ -461,7 +479,7 @@ func AddTermDocs(docs []*model.MDoc, field string, which map[string][]int) {
 
 // ExactSpec returns the boundary cardinalities that fit into n documents.
 func ExactSpec(n int) map[string]int {
-	spec := map[string]int{}
+	spec := map[string]int{"eall": n} // a term in every document (cardinality == number of documents)
 	for _, k := range []int{1023, 1024, 1025, 2047, 2048, 2049, 3072, 4096} {
 		if k <= n {
 			spec[fmt.Sprintf("e%d", k)] = k
